@@ -173,6 +173,11 @@ func (tk *task) run(chGlobals map[string]lua.LValue, shared map[string]*lua.Func
 				got = append(got, L.ToString(1))
 				return 0
 			}))
+			F.SetGlobal("ID", lua.LNumber(tk.id*10+i))
+			F.SetGlobal("pause", F.NewFunction(func(L *lua.LState) int {
+				tk.budget = tk.mb.park(pendingOp{kind: parkStep})
+				return 0
+			}))
 			F.PreloadModule("lifemod", func(L *lua.LState) int {
 				L.Push(L.SetFuncs(L.NewTable(), map[string]lua.LGFunction{"f": func(L *lua.LState) int { L.Push(lua.LNumber(7)); return 1 }}))
 				return 1
@@ -453,6 +458,18 @@ local ok, e = pcall(require, "nosuchmodule")
 note(tostring(ok))
 local f = loadstring("return 1 + 1")
 note(tostring(f()))
+-- what a failed load leaves in package.loaded belongs to this state alone
+package.preload.failing = function() error("nope") end
+note(tostring(pcall(require, "failing")))
+local s = package.loaded.failing
+note(type(s))
+if type(s) == "userdata" or type(s) == "table" then
+  local okm = pcall(setmetatable, s, {__index = function(t, k) return ID end})
+  pause()
+  note(tostring(okm) .. ":" .. tostring(okm and s.x == ID))
+  pause()
+  pcall(setmetatable, s, nil)
+end
 `
 
 const lifecycleSrc = `local t = {}
@@ -545,6 +562,12 @@ func (e *Engine) Run(t *core.Tape, cfg *core.Config, st *core.Stats) *core.Viola
 		tk := newTask(kLifecycle, "lifecycle", lifecycleSrc)
 		globals[tk] = nil
 		desc = append(desc, fmt.Sprintf("task %d lifecycle (NewState/compile/run/Close x3)", tk.id))
+		if t.Choose(2) == 0 {
+			tk := newTask(kLifecycle, "lifecycle-b", lifecycleSrc)
+			globals[tk] = nil
+			desc = append(desc, fmt.Sprintf("task %d lifecycle (a second one)", tk.id))
+			st.Probe("two_lifecycle_tasks")
+		}
 	}
 	// --- channel topology ---
 	topo := t.Choose(3)
@@ -755,7 +778,7 @@ func (e *Engine) Run(t *core.Tape, cfg *core.Config, st *core.Stats) *core.Viola
 				return fail("solo-equivalence", "task %d %s computed something else than it computes alone\nconcurrent:\n  %s\nsolo:\n  %s\nprogram:\n%s", tk.id, tk.name, strings.Join(tailS(got, 25), "\n  "), strings.Join(tailS(tk.soloTrace, 25), "\n  "), tk.src)
 			}
 		case kLifecycle:
-			one := "E:'life',2870,2,8,'7','xxx'|E:'life-err',false,'x'|E:'deep',30,false,5,28|E:'vararg','1.1','1.1','3.3','1.1'|--- state %d closed|full:7, 3.14|42|x|\"a b\",<hello> <world>,4,1-2-5-8,94,2,false,2"
+			one := "E:'life',2870,2,8,'7','xxx'|E:'life-err',false,'x'|E:'deep',30,false,5,28|E:'vararg','1.1','1.1','3.3','1.1'|--- state %d closed|full:7, 3.14|42|x|\"a b\",<hello> <world>,4,1-2-5-8,94,2,false,2,false,userdata,true:true"
 			want := fmt.Sprintf(one, 0) + "|" + fmt.Sprintf(one, 1) + "|" + fmt.Sprintf(one, 2)
 			if got := strings.Join(tk.trace, "|"); got != want || tk.err != "" {
 				return fail("solo-equivalence", "lifecycle task %d: trace %q error %q, want %q", tk.id, got, tk.err, want)
